@@ -206,6 +206,7 @@ def run_seeds_for_property(pid: str, root: str) -> Dict[str, Any]:
 
     verif = os.path.dirname(os.path.dirname(os.path.dirname(os.path.abspath(__file__))))
     work = []
+    documented: List[str] = []
     for d in sorted(glob.glob(os.path.join(verif, "seeded", "*"))):
         try:
             with open(os.path.join(d, "meta.json"), "r", encoding="utf-8") as fh:
@@ -213,8 +214,11 @@ def run_seeds_for_property(pid: str, root: str) -> Dict[str, Any]:
         except (OSError, ValueError):
             continue
         if meta.get("breaks_property") == pid:
+            if meta.get("documented_miss"):
+                documented.append(f"{os.path.basename(d)}: {meta['documented_miss']}")
+                continue
             work.append((os.path.basename(d), os.path.join(d, "patch.diff"), pid, root))
-    out = {"seeds": len(work), "caught": 0, "missed": [], "not_applicable": []}
+    out = {"seeds": len(work), "caught": 0, "missed": [], "not_applicable": [], "documented_misses": documented}
     if not work:
         return out
     with ProcessPoolExecutor(max_workers=min(8, len(work))) as ex:
